@@ -69,7 +69,7 @@ pub const SGR: &[&str] = &[
     "100", "104", "107", "38;5;100", "38;5;7", "38;5;12", "48;5;255", "48;2;1;2;3", "38;2;255;0;128", "1;31;44", "38:5:9",
     "48:2:9:8:7", "38;5", "38;2;1;2", "38;5;256", "48;2;1;2;256", "38", "5", "8", "21", "58;5;1", "1;2", "3;4;7", "0;1",
     "22;23;24;27", "38;7;1", "38:5", "38:2:1:2:3:4", "4:3", "39;49", "48;9;1", "48;0;99", "48;7;1;31", "38;9;99;1", "48;3;4;7",
-    "38;0;1;4", "48;9;99", "1;48;6;3;44", "23;27", "23", "22;22", "24;24;4", "27;7;27", "21;1", "5;1;31", "0;10;1;33", "4;21;42",
+    "38;0;1;4", "48;9;99", "1;48;6;3;44", "38;5;1:2", "48;2;1;2;3:4;1", "38;5:1;4", "38;2;1:9;2;3", "48;5;7:0;1", "38;2;1;2:2;3;4", "23;27", "23", "22;22", "24;24;4", "27;7;27", "21;1", "5;1;31", "0;10;1;33", "4;21;42",
 ];
 
 pub struct Feat {
@@ -936,6 +936,24 @@ pub fn fam_resize(r: &mut Rng) -> Case {
             p_lines(r, &b, &mut lines);
         }
     }
+    if !resizing && d.rows >= 3 && r.chance(1, 8) {
+        // a region anchored at the top row, a shrinking resize to its height (or less), then scrolling:
+        // the region has become the whole screen, so lines must reach the history again
+        let b = 2 + r.below(u64::from(d.rows) - 2);
+        lines.push(format!("P {}", hex(format!("\x1b[1;{b}r").as_bytes())));
+        let nr = 2 + r.below(b - 1);
+        lines.push(format!("SIZE {nr} {}", d.cols));
+        let mut t = vec![];
+        for i in 0..(nr + 3) {
+            t.extend(format!("s{i}\r\n").as_bytes());
+        }
+        lines.push(format!("P {}", hex(&t)));
+        lines.push("DUMP".into());
+        lines.push("VIEWS".into());
+        lines.push(format!("SB {}", 1 + r.below(3)));
+        observers_all(&mut lines);
+        return Case { lines };
+    }
     if !resizing && r.chance(1, 5) {
         // rows in the history at the old width, a wider screen, a row filled to the new right edge
         // (pending wrap), then a scrolled-back view: the view row under the cursor is narrower than
@@ -1460,6 +1478,13 @@ fn table_ops() -> Vec<Vec<u8>> {
             }
         }
     }
+    // extended colours in the semicolon form whose arguments carry colon sub-parameters
+    for k in [38u32, 48] {
+        for form in ["5;1:2", "5;7:0;1", "2;1;2;3:4;1", "2;1:9;2;3", "2;1;2:2;3;4", "5:1;4", "2:1;2;3", "5;300:1;1"] {
+            v.push(format!("\x1b[{k};{form}m").into_bytes());
+            v.push(format!("\x1b[1;{k};{form};4m").into_bytes());
+        }
+    }
     // window operations with sub-parameters
     for p in ["8:0", "8:1;3;4", "8;3:1;4:2", "8:;3;4", "8;3;4:9", "18", "7"] {
         v.push(format!("\x1b[{p}t").into_bytes());
@@ -1699,9 +1724,19 @@ pub fn opx_case(i: u64) -> Option<Case> {
     match content {
         0 => {}
         1 => {
-            // every row full: all rows but the last are flagged wrapped
-            for i in 0..(u32::from(rows) * u32::from(cols)) {
-                pre.push(b'a' + (i % 26) as u8);
+            // every row full: all rows but the last are flagged wrapped; on odd cursor classes the
+            // rows end in a wide character (which then sits in the last two columns of a wrapped row)
+            if cursor % 2 == 1 && cols >= 3 {
+                for _ in 0..rows {
+                    for i in 0..(u32::from(cols) - 2) {
+                        pre.push(b'a' + (i % 26) as u8);
+                    }
+                    pre.extend("\u{754c}".as_bytes());
+                }
+            } else {
+                for i in 0..(u32::from(rows) * u32::from(cols)) {
+                    pre.push(b'a' + (i % 26) as u8);
+                }
             }
         }
         2 => {
@@ -1777,6 +1812,9 @@ pub fn opx_case(i: u64) -> Option<Case> {
     }
     if region == 4 && cursor % 2 == 0 {
         pre.extend(b"\x1b[?6h\x1b[1;1H"); // origin mode stays on for half of the placements
+    }
+    if (cursor + region + content) % 3 == 1 {
+        pre.extend(b"\x1b[1;32;41m"); // a non-default pen for a third of the pre-states
     }
     let mut lines = vec![format!("NEW {rows} {cols} 2 0")];
     lines.push(format!("P {}", hex(&pre)));
